@@ -51,7 +51,10 @@ class Pipeline:
                     self.tlc["cmd"] += " ; " + st["cmd"]
         self.cases_path = os.path.join(self.dir, "REPLAY.ndjson")
         self.emit_dir = os.path.join(self.dir, "emit")
-        flags = replay_flags or ["--emit-dir", self.emit_dir, "--prefix", "--project", "--sched"]
+        flags = list(replay_flags or ["--emit-dir", self.emit_dir, "--prefix", "--project", "--sched"])
+        # concrete syntax is randomised (attribute order and grouping, doc placement, literal
+        # spellings, trivia), seeded: the parser is on the path of every replay
+        flags += ["--style-seed", str(seed())]
         self.obs_path, self.total = harness.replay(self.cases_path, os.path.join(self.dir, "rp"), flags)
         self.replay_s = round(time.time() - t, 1)
         self.layouts = {}       # target -> {(case id, path): layout}
